@@ -22,7 +22,7 @@ from props.c15 import make_dumper
 
 HEADER = """From Coq Require Import Reals ZArith List Bool Lra.
 From Interval Require Import Tactic.
-From WNTRV Require Import Lib.Expr Lib.ExprR Gen.Formulas Lib.Spline C15.Model C15.Proofs C02.Model C02.Proofs.
+From WNTRV Require Import Lib.Expr Lib.ExprR Gen.Formulas Lib.Spline Lib.SplineMono Lib.SplineStrict C15.Model C15.Proofs C02.Model C02.Proofs C02.PumpMono.
 Import ListNotations.
 Local Open Scope R_scope.
 Ltac unfold_model := cbv beta iota zeta delta [evalR eval usemR bsemR leafR cst is_const_leaf Nat.eqb cond_eval cond_select option_map].
@@ -47,7 +47,13 @@ Ltac model_side := unfold pipe_row, closed_row, power_pump_row, head_pump_row, h
   prv_active_row, psv_active_row, fcv_active_row, signed_quad_row, open_prv_psv_row, hw_resistance, minor_coeff, coeffs_1pt, coeffs_2pt,
   eps_hw, grav, c_hw_k, c_hw_exp, c_pump_q1, c_pump_q2, c_pump_slope;
   pw_all; prune_dec; unfold cubic_spline, poly; cbv zeta; pw_all.
-Ltac solve_case := unfold_model; repeat resolve1; model_side; repeat resolve1; interval with (i_prec 80).
+Ltac pump_box_tac := unfold pump_box, pump_f1, pump_f2, c_pump_slope, c_pump_q1, c_pump_q2;
+  repeat match goal with |- context[pw ?a ?b] => rewrite (pw_pos_eq a b) by interval end; repeat split; interval.
+Ltac solve_case := match goal with
+  | |- pump_box _ _ _ => pump_box_tac
+  | |- and _ _ => split; lra
+  | _ => unfold_model; repeat resolve1; model_side; repeat resolve1; interval with (i_prec 80)
+  end.
 """
 TACTIC = "solve_case"
 QTOL = 2.83168e-6
@@ -108,7 +114,7 @@ def check(run, replay=None):
     errs = regen(["Formulas.v"], common.REPO)
     for e in errs:
         run.tie_broken("translator refused the current source (model is stale)", e)
-    ok, log, fails = common.coq_make(["theories/C02/Proofs.vo", "theories/C15/Proofs.vo"])
+    ok, log, fails = common.coq_make(["theories/C02/Proofs.vo", "theories/C02/PumpMono.vo", "theories/C15/Proofs.vo"])
     if not ok:
         for f, ln, msg in fails:
             run.tie_broken("proof no longer checks against the regenerated constants: %s line %s: %s" % (f, ln, common.theorem_line(f, ln)), msg)
@@ -149,6 +155,12 @@ def check(run, replay=None):
         A3, B3, C3 = wn.get_link("pump_3pt").get_head_curve_coefficients()
         prm["pump_3pt"] = ("head_pump_row %s %s %s" % (R(A3), R(B3), R(C3)), "qhh")
         P_ = round(rng.uniform(1000, 20000), 0)
+        for pn in ("pump_1pt", "pump_2pt", "pump_3pt"):
+            A_, B_, C_ = wn.get_link(pn).get_head_curve_coefficients()
+            if C_ <= 1.0:
+                add("pump_box %s %s %s" % (R(A_), R(B_), R(C_)), {"check": "pump law premise", "shape": "pump_box", "link": pn, "coeffs": [A_, B_, C_]}, True)
+            else:
+                add("(0 < %s /\\ 1 < %s)%%R" % (R(B_), R(C_)), {"check": "pump law premise", "shape": "B_positive", "link": pn, "coeffs": [A_, B_, C_]}, True)
         wn.add_pump("pump_power", "R", "J5", "POWER", P_)
         prm["pump_power"] = ("power_pump_row %s" % R(P_), "qhh")
         sp, ss, sf, st = round(rng.uniform(10, 40), 1), round(rng.uniform(10, 40), 1), round(rng.uniform(0.001, 0.02), 4), round(rng.uniform(2, 80), 1)
@@ -227,6 +239,13 @@ def check(run, replay=None):
             continue
         H, Q, ST, SE, PR = res.node["head"], res.link["flowrate"], res.link["status"], res.link["setting"], res.node["pressure"]
         times = list(H.index)
+        for ln, link in wn.head_pumps():
+            A_, B_, C_ = link.get_head_curve_coefficients()
+            # hypothesis of C02_head_gain_strict_*: B > 0 and, for exponents <= 1, the smoothing cubic in the mirrored Fritsch-Carlson box
+            if C_ <= 1.0:
+                add("pump_box %s %s %s" % (R(A_), R(B_), R(C_)), {"check": "pump law premise", "shape": "pump_box", "spec": spec, "link": ln, "coeffs": [A_, B_, C_]}, True)
+            else:
+                add("(0 < %s /\\ 1 < %s)%%R" % (R(B_), R(C_)), {"check": "pump law premise", "shape": "B_positive", "spec": spec, "link": ln, "coeffs": [A_, B_, C_]}, True)
         for t in times[:: max(1, len(times) // 4)]:
             for ln, link in wn.links():
                 q, hs, he = float(Q.loc[t, ln]), float(H.loc[t, link.start_node_name]), float(H.loc[t, link.end_node_name])
@@ -252,4 +271,8 @@ def check(run, replay=None):
             run.discharged += 1
         elif cid in res_:
             m = meta[cid]
+            if m["check"] == "pump law premise":
+                run.obligations -= 1        # the strict-monotonicity theorem then simply does not apply to this pump curve
+                run.count("pump law premise not established")
+                continue
             run.violation("law_%s_%s" % (m["check"], m.get("shape", "")), "link law (%s, %s) is not satisfied / the real row differs from the model row" % (m["check"], m.get("shape")), input=m)
